@@ -25,6 +25,7 @@ static int myth_init_ex_body_really(const myth_globalattr_t * attr) {
     if (!g_attr.initialized) myth_globalattr_init_body(&g_attr);
   }
   nw = g_attr.n_workers;
+  MYTH_VERIF_EV1("InitReally", nw);
   //Initialize logger
   myth_log_init();
   //Initialize memory allocators
@@ -83,11 +84,14 @@ int myth_init_ex_body(const myth_globalattr_t * attr) {
   if (!myth_init_once_ctl_try_set(&g_myth_init_state,
 				  myth_init_state_uninit,
 				  myth_init_state_initializing)) {
+    MYTH_VERIF_EV1("InitCas", 0);
     myth_init_once_ctl_wait(&g_myth_init_state, myth_init_state_initialized);
     return 1;			/* OK */
   }
+  MYTH_VERIF_EV1("InitCas", 1);
   assert(g_myth_init_state == myth_init_state_initializing);
   myth_init_ex_body_really(attr);
+  MYTH_VERIF_EV0("InitDone");
   g_myth_init_state = myth_init_state_initialized;
   return 1;			/* OK */
 }
@@ -381,6 +385,7 @@ int myth_fini_body() {
     return 1;			/* OK */
   }
   myth_init_once_ctl_wait(&g_myth_init_state, myth_init_state_initialized);
+  MYTH_VERIF_EV0("FiniBegin");
   //add context switch as a sentinel for emitting logs
   int i;
   for (i = 0; i < g_attr.n_workers; i++){
@@ -395,6 +400,7 @@ int myth_fini_body() {
     real_pthread_join(g_envs[i].worker, NULL);
   }
   myth_fini_body_really();
+  MYTH_VERIF_EV0("FiniDone");
   g_myth_init_state = myth_init_state_uninit;
   return 0;
 }
